@@ -22,6 +22,32 @@ Check (C16_repaired_f23_completes :
 Check (C16_channel_fifo_per_sender : forall cfg progs sched c from,
   let s := sh (run cfg sched (init progs)) in
   sent_seq s c from = recv_seq s c from ++ queue_seq s c from).
+Check (C16_stop_terminates : forall progs sched h f,
+  no_spawn_progs progs = true ->
+  let w := run cfg_fixed sched (init_all progs) in
+  is_stw (pc (th w h)) = true ->
+  fair (length progs) f ->
+  exists k, is_stw (pc (th (run_stream cfg_fixed f k w) h)) = false).
+Check (C16_stop_terminates_nonvacuous :
+  fair 3 rr3 /\ no_spawn_progs live_progs = true /\
+  is_stw (pc (th (run cfg_fixed live_sched (init_all live_progs)) 0)) = true /\
+  is_stw (pc (th (run_stream cfg_fixed rr3 60 (run cfg_fixed live_sched (init_all live_progs))) 0)) = false).
+Check (C16_stop_delayed_by_late_registration :
+  let w := run cfg_fixed late_sched (init late_progs) in
+  pc (th w 2) = Stw (SWait 1 1) /\ reg (th w 1) = true /\ paused (th w 1) = false /\
+  wstep cfg_fixed 2 w = None /\
+  wstep cfg_fixed 2 (run cfg_fixed (repeat 1 20) w) = None /\ prog (th (run cfg_fixed (repeat 1 20) w) 1) <> []).
+Check (C16_join_once : forall cfg progs sched,
+  let w := run cfg sched (init progs) in
+  NoDup (map snd (deliv (sh w))) /\
+  (forall joiner j, In (joiner, j) (deliv (sh w)) -> pc (th w j) = Done /\ In j (taken (sh w))) /\
+  (forall u j, pc (th w u) = SpJoin -> head (th w u) = AJoin j ->
+     ~ In j (map snd (deliv (sh w))) /\ forall u', pc (th w u') = SpJoin -> head (th w u') = AJoin j -> u' = u)).
+Check (C16_join_delivery_enabled : forall cfg w u j, u < nthreads w -> pc (th w u) = SpJoin -> head (th w u) = AJoin j ->
+  pc (th w j) = Done -> exists w', wstep cfg u w = Some w' /\ deliv (sh w') = (u, j) :: deliv (sh w)).
+Check (eq_refl : fair = fun n f => forall t k, t < n -> exists m, k <= m /\ f m = t).
+Check (eq_refl : run_stream = fun cfg f n w => Conc.run_stream world (wstep cfg) f n w).
+Check (eq_refl : no_spawn_progs = fun progs => forallb (fun p => negb (existsb is_spawn p)) progs).
 Check (C16_source_config_is_fixed : gen_config = cfg_fixed).
 Check (C16_every_region_published : regions_ok = true).
 
@@ -42,5 +68,10 @@ Print Assumptions C16_deadlock_refuted_native_box.
 Print Assumptions C16_repaired_f18_completes.
 Print Assumptions C16_repaired_f23_completes.
 Print Assumptions C16_channel_fifo_per_sender.
+Print Assumptions C16_stop_terminates.
+Print Assumptions C16_stop_terminates_nonvacuous.
+Print Assumptions C16_stop_delayed_by_late_registration.
+Print Assumptions C16_join_once.
+Print Assumptions C16_join_delivery_enabled.
 Print Assumptions C16_source_config_is_fixed.
 Print Assumptions C16_every_region_published.
